@@ -99,10 +99,50 @@ def _is_none_test(node: ast.expr) -> tuple[str, bool] | None:
     return None
 
 
+class _Subst(ast.NodeTransformer):
+    def __init__(self, mapping: dict):
+        self.mapping = mapping
+
+    def visit_Name(self, node: ast.Name):
+        if isinstance(node.ctx, ast.Load) and node.id in self.mapping:
+            return self.mapping[node.id]
+        return node
+
+
 class Translator:
     def __init__(self, funcs: dict[str, str]):
         self.funcs = funcs
         self.tmp = 0
+        self.params: dict[str, list[str]] = {}  # callee source -> parameter names (for keyword arguments)
+        self.helpers: dict[str, ast.FunctionDef] = {}  # module-level `def f(…): return <expr>` helpers, inlined at call sites
+        self.depth = 0
+
+    def _bind(self, what: str, names: list[str], n: ast.Call) -> list[ast.expr]:
+        if len(n.args) > len(names):
+            raise Unsupported(f"too many arguments for {what}")
+        given = dict(zip(names, n.args))
+        for kw in n.keywords:
+            if kw.arg is None or kw.arg not in names or kw.arg in given:
+                raise Unsupported(f"keyword argument of {what}")
+            given[kw.arg] = kw.value
+        if set(given) != set(names):
+            raise Unsupported(f"missing argument of {what}")
+        return [given[p] for p in names]
+
+    def _inlined(self, n: ast.expr) -> ast.expr | None:
+        """`helper(a, b)` -> the helper's returned expression with the arguments substituted (pure, loop-free)."""
+        if not (isinstance(n, ast.Call) and isinstance(n.func, ast.Name) and n.func.id in self.helpers):
+            return None
+        fn = self.helpers[n.func.id]
+        body = [st for st in fn.body if not (isinstance(st, ast.Expr) and isinstance(st.value, ast.Constant))]
+        if len(body) != 1 or not isinstance(body[0], ast.Return) or body[0].value is None or self.depth > 6:
+            raise Unsupported(f"helper {fn.name} is not a single `return <expression>`")
+        a = fn.args
+        if a.vararg or a.kwarg or a.kwonlyargs or a.defaults or a.posonlyargs:
+            raise Unsupported(f"signature of helper {fn.name}")
+        args = self._bind(fn.name, [p.arg for p in a.args], n)
+        import copy
+        return _Subst(dict(zip([p.arg for p in a.args], args))).visit(copy.deepcopy(body[0].value))
 
     # ---------------------------------------------------------------- expressions
     def expr(self, n: ast.expr, env: Env) -> str:
@@ -149,6 +189,13 @@ class Translator:
         if isinstance(n, (ast.Compare, ast.BoolOp)):
             return self.bexpr(n, env)
         if isinstance(n, ast.Call):
+            inl = self._inlined(n)
+            if inl is not None:
+                self.depth += 1
+                try:
+                    return self.expr(inl, env)
+                finally:
+                    self.depth -= 1
             src = ast.unparse(n.func)
             if src == "Power.zero" and not n.args:
                 return "(0 : Rat)"
@@ -157,7 +204,8 @@ class Translator:
                 a, b = (self.expr(x, env) for x in n.args)
                 return f"(py{src.capitalize()} {a} {b})"
             if src in self.funcs:
-                args = " ".join(self._atom(self.expr(a, env)) for a in n.args)
+                actual = self._bind(src, self.params[src], n) if n.keywords and src in self.params else list(n.args)
+                args = " ".join(self._atom(self.expr(a, env)) for a in actual)
                 return f"({self.funcs[src]} {args})"
             raise Unsupported(f"call {src}")
         raise Unsupported(f"expression {ast.dump(n)[:80]}")
@@ -194,6 +242,13 @@ class Translator:
             return "(" + j.join(f"({self.prop(v, env)})" for v in n.values) + ")"
         if isinstance(n, ast.UnaryOp) and isinstance(n.op, ast.Not):
             return f"¬ ({self.prop(n.operand, env)})"
+        inl = self._inlined(n)
+        if inl is not None:
+            self.depth += 1
+            try:
+                return "(" + self.prop(inl, env) + ")"
+            finally:
+                self.depth -= 1
         if isinstance(n, ast.Call) and isinstance(n.func, ast.Attribute) and n.func.attr == "isclose":
             if len(n.args) == 1 and ast.unparse(n.args[0]) == "Power.zero()" and not n.keywords:
                 return f"{self.expr(n.func.value, env)} = 0"
@@ -335,6 +390,14 @@ def translate_module(source: str, wanted: dict[str, str], callee_names: dict[str
     """
     tree = ast.parse(source)
     tr = Translator(callee_names)
+    for node in tree.body:
+        if isinstance(node, ast.FunctionDef):
+            if node.name in wanted:
+                for src, lean in callee_names.items():
+                    if lean == wanted[node.name]:
+                        tr.params[src] = [a.arg for a in node.args.args]
+            else:
+                tr.helpers[node.name] = node
     out: dict[str, str] = {}
     for node in tree.body:
         if isinstance(node, ast.FunctionDef) and node.name in wanted:
